@@ -50,3 +50,62 @@ def frame(payload):
 
 def fields_arg(fields):
     return ";".join("%s=%s" % (t, hx(v)) for t, v in fields)
+
+
+def decode(b, wire=None):
+    """independent tolerant decoder: list of (tagname or hex word, value) or None"""
+    rev = {w: t for t, w in (wire.items() if wire else tag_table())}
+    if len(b) < 4 or len(b) % 4:
+        return None
+    n = struct.unpack_from("<I", b, 0)[0]
+    if n == 0:
+        return []
+    if 8 * n > len(b):
+        return None
+    offs = [struct.unpack_from("<I", b, 4 + 4 * i)[0] for i in range(n - 1)]
+    tags = [b[4 * n + 4 * i: 4 * n + 4 * i + 4] for i in range(n)]
+    payload = b[8 * n:]
+    bounds = [0] + offs + [len(payload)]
+    if any(x % 4 for x in offs) or any(a > c for a, c in zip(bounds, bounds[1:])):
+        return None
+    nums = [struct.unpack("<I", t)[0] for t in tags]
+    if any(a >= c for a, c in zip(nums, nums[1:])):
+        return None
+    if any(t not in rev for t in tags):
+        return None
+    return [(rev[t], payload[bounds[i]:bounds[i + 1]]) for i, t in enumerate(tags)]
+
+
+def unframe(b):
+    if b[:8] != MAGIC or len(b) < 12 or struct.unpack_from("<I", b, 8)[0] != len(b) - 12:
+        return None
+    return b[12:]
+
+
+DRAFT13 = bytes.fromhex("0c000080")
+
+
+def mk_classic(nonce, size=1024, extra=None):
+    """classic request: NONC + PAD, padded to `size` bytes"""
+    fields = [("NONC", nonce), ("PAD", b"")]
+    if extra:
+        fields = sorted(fields + extra, key=lambda tv: struct.unpack("<I", dict(tag_table())[tv[0]])[0])
+    base = len(encode(fields))
+    pad = max(0, size - base)
+    fields = [(t, (v + bytes(pad)) if t == "PAD" else v) for t, v in fields]
+    return encode(fields)
+
+
+def mk_ietf(nonce, size=1024, vers=(DRAFT13,), srv=None, drop_ver=False):
+    """IETF request: VER, [SRV], NONC, ZZZZ padding; message padded to `size`, then framed"""
+    fields = []
+    if not drop_ver:
+        fields.append(("VER", b"".join(vers)))
+    if srv is not None:
+        fields.append(("SRV", srv))
+    fields += [("NONC", nonce), ("ZZZZ", b"")]
+    base = len(encode(fields))
+    pad = max(0, size - base)
+    pad -= pad % 4
+    fields = [(t, (v + bytes(pad)) if t == "ZZZZ" else v) for t, v in fields]
+    return frame(encode(fields))
